@@ -52,8 +52,9 @@ StableThm == (IsMut /\ D.v = "msg") =>
       LET d2 == ParseVerdict(b2, shm) IN d2.v = "msg" /\ d2.m = D.m /\ d2.consumed = Len(b2) /\ EncMessage(d2.m) = b2
 ConsumeAgrees == (IsMut /\ ModeOf(mu) /\ PrefixOfPattern(Buf)) =>     \* where both apply, the skipper and the parser agree on the frame
    LET c == ConsumeVerdict(Buf) IN (D.v = "msg" => c.v = "skipped" /\ c.consumed = D.consumed) /\ (c.v = "rej" => D.v # "msg")
+CandidateFrames(b, shm) == IF shm THEN {FrameAtOcc(b, kk) : kk \in Occurrences(b)} ELSE {FrameOf(b, FALSE, "parse")}
 EmitMut == (Emit /\ IsMut) => PrintT(<<"REPLAY", ToJson([ev |-> [op |-> "parse", buf |-> Buf, sh |-> ModeOf(mu), flt |-> <<>>], expect |-> D,
-                                                                           frame |-> FrameOf(Buf, ModeOf(mu), "parse")])>>)
+                                                                           frame |-> CandidateFrames(Buf, ModeOf(mu))])>>)
 
 \* ---- dialect acceptance (C02): encodings real ECUs emit, evaluated once
 Hdr(len, noar, msin) == <<33, 7, len \div 256, len % 256, msin, noar, 65, 0, 0, 0, 67, 84, 0, 0>>   \* v1, UEH, little endian, "A", "CT"
